@@ -831,14 +831,32 @@ def copies_compared_rule(P, rep, rid):
         raise AnalysisBroken('state_read: the loop over the other content copies (a loop without sopen_read that stores need_write) was not found: %d candidates' % len(cand))
     h, body = cand[0]
     cg = P.callgraph()
+    # the name of the copy examined in this iteration: the buffer(s) filled by pathcpy / pathprint inside the loop
+    def alloca_of(o):
+        i_ = g.inst_of(o)
+        while i_ is not None and i_.op in ('getelementptr', 'bitcast'):
+            i_ = g.inst_of(i_.ops[0])
+        return i_ if i_ is not None and i_.op == 'alloca' else None
+    own = set()
+    for c in g.calls({'pathcpy', 'pathprint', 'pathimport'}):
+        if c.block in body:
+            a_ = alloca_of(c.ops[0])
+            if a_ is not None:
+                own.add(a_.id)
+    if not own:
+        raise AnalysisBroken('state_read: the path of the other content copy (a buffer filled inside the loop) was not identified')
+    def on_own_path(c):
+        return any((alloca_of(o) is not None and alloca_of(o).id in own) for o in c.ops)
+    opened = [c for c in g.calls({'open', 'open64', 'fopen', 'sopen_read'}) if c.block in body and on_own_path(c)]
     reads = []
     for c in g.calls():
         if c.block not in body or c.asm is not None:
             continue
         if c.callee in READ_CALLS:
-            reads.append(c)
+            if opened:
+                reads.append(c)
         elif c.callee_full and P.has(c.callee) and not P.fn(c.callee).decl:
-            if any(base(x) in READ_CALLS for x in P.reachable([c.callee_full], cg)) and c.callee not in ('log_fatal', 'log_error', 'log_tag', 'msg_progress'):
+            if any(base(x) in READ_CALLS for x in P.reachable([c.callee_full], cg)) and c.callee not in ('log_fatal', 'log_error', 'log_tag', 'msg_progress') and on_own_path(c):
                 reads.append(c)
     stops = {i.id for i in nw if i.block in body} | {c.id for c in reads}
     t = g.term(h)
